@@ -197,6 +197,11 @@ class GopherEntry:
         for extension, blockname in list(eaexts.items()):
             if blockname in self.ea:
                 continue
+            if not vfs.isfile(selector + extension):
+                # Usually: no such file.  But a FIFO of that name would
+                # block the open() below forever; nothing but a regular
+                # file can be a sidecar.
+                continue
             try:
                 with vfs.open(
                     selector + extension, "r", errors="surrogateescape"
